@@ -330,7 +330,21 @@ def _run_one(cfg, rec):
             tot = sum((zreal(jvals[i]) for i in incl[1:]), zreal(jvals[incl[0]]))
             jspec = {i: (zreal(jvals[i]) / tot if i in incl else zreal(jvals[i])) for i in range(n)}
             involved = [i for i in cfg["order"] if any(i in e for e in cfg["entries"])]
-            return {"labels": labels, "matrix": matrix, "names": names, "K": spec_K(cfg, lambda nm: knames.get(nm, z3.Real(nm))),
+            das_out = None
+            if not cfg.get("reevaluate"):
+                # reported rates / lifetimes / A-matrix / DAS through the real finalisation helper, symbolic SAS
+                import xarray as xr
+
+                ng = 2
+                sas = SymArray((ng, len(comps)))
+                for g_ in range(ng):
+                    for s_ in range(len(comps)):
+                        sas[g_, s_] = sym(f"sas_{g_}_{s_}")
+                dset = xr.Dataset(coords={"spectral": [500.0, 510.0], "species": list(comps)})
+                dset["species_associated_spectra"] = (("spectral", "species"), np.asarray(sas))
+                du.retrieve_decay_associated_data(mc, dm, dset, "spectral", "spectra")
+                das_out = (dset, sas)
+            return {"das": das_out, "labels": labels, "matrix": matrix, "names": names, "K": spec_K(cfg, lambda nm: knames.get(nm, z3.Real(nm))),
                     "j": [jspec[i] for i in range(n)], "A": A, "rates": r, "times": times,
                     "contract": eig.contract() + solve.contract(), "species_order": involved, "comps": comps}
 
@@ -371,6 +385,24 @@ def _run_one(cfg, rec):
         for name in sorted(core.free_vars(z3.And(out["contract"])) if out["contract"] else []):
             if name.startswith("g"):
                 mults += [z3.Real(name), -z3.Real(name)]
+        if out.get("das") is not None and A.shape == (m, m):
+            dset, sas = out["das"]
+            das = np.asarray(dset["decay_associated_spectra_mc"].data, dtype=object)
+            am = np.asarray(dset["a_matrix_mc"].data, dtype=object)
+            rt = np.asarray(dset["rate_mc"].data, dtype=object)
+            lt = np.asarray(dset["lifetime_mc"].data, dtype=object)
+            ok_shape = das.shape == (2, m) and am.shape == (m, m) and list(map(str, dset["species_mc"].values)) == [names[i] for i in order]
+            items.append(("decay associated data are laid out on (global, component) / (component, species)", z3.BoolVal(bool(ok_shape)), "kinetics:das-layout"))
+            if ok_shape:
+                for l_ in range(m):
+                    items.append(("reported rate / lifetime of a component: lifetime = 1 / rate, rate = the component's rate",
+                                  z3.And(core.cross_eq(zreal(rt[l_]), zreal(r[l_])), core.cross_eq(zreal(lt[l_]) * zreal(r[l_]), z3.RealVal(1))),
+                                  "kinetics:lifetime"))
+                    for si in range(m):
+                        items.append(("reported A-matrix is the A-matrix used", core.cross_eq(zreal(am[l_, si]), zreal(A[l_, si])), "kinetics:a-matrix-report"))
+                    for g_ in range(2):
+                        want = sum((zreal(sas[g_, si]) * zreal(A[l_, si]) for si in range(1, m)), zreal(sas[g_, 0]) * zreal(A[l_, 0]))
+                        items.append(("DAS = SAS x A^T", core.cross_eq(zreal(das[g_, l_]), want), "kinetics:das"))
         for n_, g, fp in items:
             if out["contract"] and not core.fast_valid(g, ctx.implied) and core.by_combination(g, out["contract"], mults):
                 rec.obligations += 1
